@@ -38,11 +38,22 @@ def oracle_c05(scn, run):
     bad = [l["id"] for l in d if not l["hash_ok"]]
     if bad:
         v.append(({"class": "hash-chain"}, "entries %s do not carry the digest of (previous hash, own content)" % bad))
+    v += oracle_stored(scn, run)
     tids = [int(l["tx"]["id"]) for l in tx_logs(d)]
     if tids != list(range(len(tids))):
         dry_ok = any(scn["requests"][r["req"]].get("dry") and r["ok"] for r in run["responses"])
         v.append(({"class": "tx-ids", "after_preview": dry_ok}, "transaction ids in log order are %s" % tids))
     return v
+
+
+def oracle_stored(scn, run):
+    """the row the store writes for an entry (encoded when the entry reaches InsertLogs, as ledgerstore.Store does), read back through
+    Logs.ToCore, must carry the entry's id and re-hash to the stored hash over the previous row read back the same way"""
+    bad = [l["id"] for l in run["durable"] if l.get("stored_ok") is False]
+    if bad:
+        return [({"class": "stored-entry-does-not-verify"},
+                 "entries %s: the row written to the store does not read back to an entry whose recomputed hash is the stored one" % bad)]
+    return []
 
 
 # ---------------------------------------------------------------- C06
@@ -252,7 +263,7 @@ def oracle_c14(scn, run):
     return v
 
 
-ORACLES = {"C02": oracle_c02, "C05": oracle_c05, "C06": oracle_c06, "C07": oracle_c07, "C10": oracle_c10, "C11": oracle_c11,
+ORACLES = {"C13": oracle_stored, "C02": oracle_c02, "C05": oracle_c05, "C06": oracle_c06, "C07": oracle_c07, "C10": oracle_c10, "C11": oracle_c11,
            "C14": oracle_c14, "C16": oracle_c16}
 
 
